@@ -196,3 +196,32 @@ theorem add_spec (c : HCfg) (a : DArr) (x : Nat) (m : Mem) (h : a.Inv) (hmax : a
         firstN_memcpy _ _ _ (by simp; omega)]
 
 end CC.DArr
+
+namespace CC.HashTable
+open CC CC.HT CC.Spec
+
+theorem DArr_new_none (cap : Nat) (m : Mem) (h : (DArr.new cap m).2.1 = none) : (DArr.new cap m).1 ≠ .ok := by
+  unfold DArr.new at h ⊢
+  by_cases h0 : cap = 0 ∨ 2 ≥ Gen.CC_MAX_ELEMENTS / cap
+  · simp [h0]
+  · simp only [h0, if_false] at h ⊢
+    cases h1 : m.alloc.1 with
+    | false => simp
+    | true =>
+      cases h2 : m.alloc.2.alloc.1 with
+      | false => simp
+      | true => simp [h1, h2] at h
+
+/-- `get_keys`/`get_values` hand out an array exactly when they report `CC_OK` -/
+theorem collect_ok_iff (c : HCfg) (t : HashTable) (xs : List Nat) (m : Mem) :
+    (t.collect c xs m).1 = .ok ↔ (t.collect c xs m).2.1.isSome = true := by
+  unfold collect; simp only
+  cases hn : (DArr.new t.size m).2.1 with
+  | none => simp only [Option.isSome_none, Bool.false_eq_true, iff_false]; exact DArr_new_none t.size m hn
+  | some a =>
+    simp only
+    split
+    · rename_i hne; simp [hne]
+    · simp
+
+end CC.HashTable
